@@ -151,5 +151,12 @@ def _read(self, op):
         if cache is None or not cache.is_alive:
             self._reset_after_rollback()
             return 'raised_session_lost'
+        if isinstance(e, self.core.IsolationError):
+            # a repeatable-read error invalidates the transaction: the program abandons the session
+            self.c('session_abandoned_after_isolation_error')
+            try: self.orm.rollback()
+            except Exception as e2: self.c('rollback_after_isolation_error_raised.' + type(e2).__name__)
+            self._reset_after_rollback()
+            return 'raised_session_lost'
         return 'raised_unexpected'
     return 'read_ok'
